@@ -1,4 +1,5 @@
 import CLModel.Proofs.Primary
+import CLModel.Proofs.Guards
 import Mathlib.Tactic.Linarith
 /-!
 # C11 — Common attributes bind all sub-proofs to one link secret
@@ -260,5 +261,12 @@ theorem absent_not_hidden (schema nonSchema revealed : List String) (a : String)
 /-! non-vacuity: a two-entry `seen` and a matching sub-proof map -/
 example : commonPass (G := ℤ) ["master_secret"] ⟨[], 0, 0, 0, [("master_secret", 42)], 0⟩ []
     ["master_secret"] = .ok [("master_secret", 42)] := by decide
+
+/-- **the common-attribute pass of the source has the model's shape**: every declared name, in
+every sub-proof: not a hidden attribute of the sub-proof ⇒ error; response missing ⇒ error;
+first response stored, later ones compared with `!=` (emptying the slot after a comparison, or
+skipping revealed attributes, breaks it) -/
+theorem common_pass_from_source :
+    Gen.commonPassShape = true ∧ Gen.commonHiddenGuard = true := ⟨rfl, rfl⟩
 
 end CL.C11
